@@ -26,6 +26,8 @@ def variants(img):
         # the same cue sheet with DOS and classic-Mac line ends
         "cue-raw-crlf": ("i.cue", R.cue_text("d.bin", [{"mode": "MODE1/2048", "indices": [(1, 0, 0, 0)]}]).replace("\n", "\r\n").encode(), {"d.bin": img}),
         "cue-raw-cr": ("i.cue", R.cue_text("d.bin", [{"mode": "MODE1/2048", "indices": [(1, 0, 0, 0)]}]).replace("\n", "\r").encode(), {"d.bin": img}),
+        # a bin file whose name itself contains double quotes (legal on POSIX): FILE "d "B" side.bin" BINARY
+        "cue-raw-quoted-name": ("i.cue", R.cue_text('d "B" side.bin', [{"mode": "MODE1/2048", "indices": [(1, 0, 0, 0)]}]).encode(), {'d "B" side.bin': img}),
         "cue-2352": ("i.cue", R.cue_text("d.bin", [{"mode": "MODE1/2352", "indices": [(1, 0, 0, 0)]},
                                                      {"mode": "AUDIO", "indices": [(1, 0, 2, 0)]}]).encode(), {"d.bin": w2352}),
     }
